@@ -216,10 +216,14 @@ VlogAssignInit == VlogInit \o <<
                \* assign n[0] = a[0];   in mid
                Cconnect(3, OPin(4, 9)), Cconnect(6, OPin(4, 10)),
                \* assign m[1:0] = u;    in top
-               Cconnect(10, OPin(5, 11)), Cconnect(11, OPin(5, 12)), Cconnect(12, OPin(5, 13)), Cconnect(13, OPin(5, 14)) >>
+               Cconnect(10, OPin(5, 11)), Cconnect(11, OPin(5, 12)), Cconnect(12, OPin(5, 13)), Cconnect(13, OPin(5, 14)),
+               \* the net n of mid is based at 2: wire [3:2] n; assign n[2] = a[0];
+               [op |-> "set_lower", kind |-> "C", x |-> 5, ival |-> 2],
+               \* the same literal constant in two modules: 1'b0 on pin i of l (in mid) and on pin b of m (in top)
+               Ccreate("DC", 3, "\\<const0>", 1), Cconnect(8, OPin(2, 1)), Cconnect(16, OPin(3, 5)) >>
 VlogOpts == [order : {"asis", "reversed"}, ansi : BOOLEAN, positional : BOOLEAN, concat : BOOLEAN,
              escaped : BOOLEAN, comments : BOOLEAN, celldefine : BOOLEAN, grouped : BOOLEAN, escmod : BOOLEAN,
-             undeclared : BOOLEAN]
+             undeclared : BOOLEAN, concatparts : BOOLEAN]
 (* declaration styles: a leaf with two vector ports of one direction and range, instanced with every bit tied *)
 VlogDeclInit == << Cnew("N", "n"), Ccreate("NL", 1, "work", 0),
                Ccreate("LD", 1, "pair", 0), Ccreate("LD", 1, "top", 0),
@@ -315,12 +319,16 @@ ComposeCands(s, which) ==
                                            [op |-> "compose2", n |-> 2, fmt |-> "eblif", opts |-> o]>>] :
                    o \in {oo \in ComposeOpts : ~oo.defparam /\ ~oo.definition_list}}
           ELSE {})
+    \* the API-built netlist itself (it may have no name) written as EBLIF
+    \cup (IF "c16_eblif_direct" \in which
+          THEN {[op |-> "compose2", n |-> 1, fmt |-> "eblif", opts |-> o] : o \in {oo \in ComposeOpts : ~oo.defparam /\ ~oo.definition_list}}
+          ELSE {})
 (* C15: every single corruption of the rendering of a design, per format *)
 ParseCands(s, which) ==
     UNION {IF ("c15_" \o f) \in which
            THEN {[op |-> "parse_text", n |-> 1, fmt |-> f, kind |-> "none", idx |-> 0]}
                 \cup {[op |-> "parse_text", n |-> 1, fmt |-> f, kind |-> kd, idx |-> i] :
-                         <<kd, i>> \in {"trunc", "del", "dup", "repl"} \X (0..399)}
+                         <<kd, i>> \in {"trunc", "del", "dup", "repl", "illegal"} \X (0..399)}
                 \cup (IF f = "edif" THEN {[op |-> "parse_text", n |-> 1, fmt |-> f, kind |-> kd, idx |-> i] :
                                               <<kd, i>> \in {"dangle", "crosslib"} \X (0..39)} ELSE {})
                 \* the same corruptions handed to the reader while the process default is the EDIF policy
@@ -353,6 +361,8 @@ CmpDesign == << Cnew("N", "n"), Ccreate("NL", 1, "prim", 0), Ccreate("NL", 1, "w
                 Cconnect(1, IPin(3)), Cconnect(1, OPin(1, 1)), Cconnect(2, OPin(1, 2)), Cconnect(2, IPin(5)),
                 Cconnect(3, IPin(6)), Cconnect(3, OPin(2, 3)), Cconnect(3, OPin(3, 2)),
                 Cconnect(4, OPin(2, 5)), Cconnect(4, OPin(3, 1)),
+                \* a second cell with the port shape of leaf (the spare, unconnected instance y can be re-pointed to it)
+                Ccreate("LD", 1, "leafb", 0), Ccreate("DP", 4, "i", 1), Ccreate("DP", 4, "o", 1), Csetdir(6, 2), Csetdir(7, 3),
                 Csettopdef(1, 3) >>
 ShiftRef(r, off) == IF r.k = "i" THEN IPin(r.q + off.Q) ELSE [r EXCEPT !.i = @ + off.I, !.q = @ + off.Q]
 ShiftCall(c, off) ==
@@ -382,7 +392,9 @@ CompareCands(s) ==
           \cup {[op |-> "set_name", kind |-> kind, x |-> x, val |-> "z"] :
                     <<kind, x>> \in UNION {{<<k, y>> : y \in side[k]} : k \in {"L", "D", "P", "C", "I"}}}
           \cup {[op |-> "disconnect", w |-> w, pin |-> r] : <<w, r>> \in {<<ww, rr>> \in side.W \X AllRefs(s) : rr.k # "p" /\ WireOfRef(s, rr) = ww}}
-        moves == {<<[op |-> "disconnect", w |-> w, pin |-> r], Cconnect(w, r2)>> :
+        \* the moved connection takes the PLACE of the old one in the wire's list (and, as a second variant, the end)
+        moves == {<<[op |-> "disconnect", w |-> w, pin |-> r],
+                    [op |-> "connect", w |-> w, pin |-> r2, pos |-> IF atEnd THEN NoPos ELSE IndexIn(s.wirePins[w], r) - 1]>> : atEnd \in BOOLEAN,
                      <<w, r, r2>> \in {<<ww, rr, r3>> \in side.W \X AllRefs(s) \X AllRefs(s) :
                          /\ rr.k # "p" /\ r3.k # "p" /\ WireOfRef(s, rr) = ww /\ WireOfRef(s, r3) = None
                          /\ (IF r3.k = "i" THEN r3.q \in side.Q ELSE r3.i \in side.I)}}
@@ -444,6 +456,7 @@ ScopeTable ==
     c16_edif3 |-> [FmtScope({"c16_edif"}) EXCEPT !.init = FmtInit3, !.parents = {1, 4}],
     c16_vlog |-> VlogScope({"c16_vlog"}),
     c16_eblif |-> EblifScope({"c16_eblif"}),
+    c16_eblif_noname |-> [EblifScope({"c16_eblif_direct"}) EXCEPT !.init = @ \o << [op |-> "del_name", kind |-> "N", x |-> 1] >>],
     eblif_read |-> EblifScope({"eblif_read"}),
     eblif_rt |-> EblifScope({"eblif_rt"}),
     eblif_latch |-> [EblifScope({"eblif_read"}) EXCEPT !.init = EblifLatchInit, !.ops = {"b:connect"}],
@@ -451,8 +464,13 @@ ScopeTable ==
     vlog_read |-> VlogScope({"vlog_read"}),
     vlog_rt |-> VlogScope({"vlog_rt"}),
     vlog_assign |-> [VlogScope({"vlog_read", "vlog_rt"}) EXCEPT !.init = VlogAssignInit, !.ops = {"b:connect", "set_k:C"},
-                       !.max = [N |-> 1, L |-> 2, D |-> 5, P |-> 10, C |-> 10, I |-> 5, Q |-> 14, W |-> 15]],
+                       !.max = [N |-> 1, L |-> 2, D |-> 5, P |-> 10, C |-> 11, I |-> 5, Q |-> 14, W |-> 16]],
     vlog_decl |-> [VlogScope({"vlog_read", "vlog_rt", "vlog_all"}) EXCEPT !.init = VlogDeclInit, !.ops = {}, !.parents = {}],
+    \* ... plus a cell nothing instantiates: it must survive a write-then-read step (outside C06's single-root domain)
+    vlog_unused |-> [VlogScope({"vlog_rt"}) EXCEPT
+                       !.init = VlogDeclInit \o << Ccreate("LD", 1, "spare", 0), Ccreate("DP", 3, "s", 1), Ccreate("DC", 3, "s", 1),
+                                                   [op |-> "set_dir", x |-> 7, ival |-> 2], Cconnect(11, IPin(11)) >>,
+                       !.ops = {}, !.parents = {}],
     edif_names |-> [init |-> NameInit, ops |-> {}, max |-> MaxAll(0), names |-> {}, vals |-> {}, pos |-> {NoPos},
                     createN |-> {0}, queries |-> {"C17"}, walk |-> FALSE],
     edif_reexport |-> [init |-> NameInit, ops |-> {}, max |-> MaxAll(0), names |-> {}, vals |-> {}, pos |-> {NoPos},
@@ -460,8 +478,9 @@ ScopeTable ==
     edif_read |-> FmtScope({"edif_read"}),
     edif_rt |-> FmtScope({"edif_rt"}),
     edif_read1 |-> [FmtScope({"edif_read"}) EXCEPT !.init = FmtInit1],
-    edif_read_br |-> [FmtScope({"edif_read"}) EXCEPT !.init = FmtInitBr],
-    edif_rt_br |-> [FmtScope({"edif_rt"}) EXCEPT !.init = FmtInitBr],
+    \* ... and mid's one-pin port b is an ARRAY port: (array b 1)
+    edif_read_br |-> [FmtScope({"edif_read"}) EXCEPT !.init = FmtInitBr \o << [op |-> "set_attr", kind |-> "P", x |-> 5, key |-> "scalar", val |-> FALSE] >>],
+    edif_rt_br |-> [FmtScope({"edif_rt"}) EXCEPT !.init = FmtInitBr \o << [op |-> "set_attr", kind |-> "P", x |-> 5, key |-> "scalar", val |-> FALSE] >>],
     edif_rt1 |-> [FmtScope({"edif_rt"}) EXCEPT !.init = FmtInit1],
     edif_rt2 |-> [FmtScope({"edif_rt"}) EXCEPT !.init = FmtInit1 \o << Cchild(3, "u", 1), Cchild(4, "u", 3), Cchild(4, "v", 1) >>],
     edif_rt3 |-> [FmtScope({"edif_rt"}) EXCEPT !.init = FmtInit3, !.parents = {1, 4}],
@@ -469,6 +488,9 @@ ScopeTable ==
     compare |-> [init |-> CmpInit, ops |-> {}, max |-> MaxAll(0), names |-> {}, vals |-> {}, pos |-> {NoPos},
                  createN |-> {0}, queries |-> {"C20"}, walk |-> FALSE],
     query |-> QScope,
+    \* the netlist's naming policy was dropped (del netlist[".NS"]): there is no index, exact lookups must scan
+    query_nons |-> [QScope EXCEPT !.init = QInit \o << [op |-> "del_item", kind |-> "N", x |-> 1, key |-> "ns"] >>,
+                                  !.queries = {"C13d"}],
     query_edif |-> [QScope EXCEPT !.init = QInitE, !.queries = {"C13e"}],
     clone_edit |-> CloneEditScope,
     clone |-> [XfScope EXCEPT !.queries = {"clone"}, !.names = {"a", U}, !.lookupVals = {"a", "leaf", "mid"},
@@ -478,6 +500,9 @@ ScopeTable ==
                                                [op |-> "set_attr", kind |-> "P", x |-> 2, key |-> "downto", val |-> FALSE],
                                                [op |-> "set_attr", kind |-> "C", x |-> 2, key |-> "downto", val |-> FALSE],
                                                [op |-> "set_lower", kind |-> "C", x |-> 1, ival |-> 2] >>],
+    \* self-contained designs only (no cell is taken out of its library): used where the clone of a netlist is judged by
+    \* the reference-set invariants (Netlist.clone does not register copies with definitions OUTSIDE the netlist)
+    clone_closed |-> [XfScope EXCEPT !.queries = {"clone"}, !.names = {"a", U}, !.lookupVals = {}],
     \* the top instance is an ordinary child of a definition (not a stand-alone instance)
     clone_top |-> [XfScope EXCEPT !.queries = {"clone"}, !.names = {"a"}, !.lookupVals = {},
                                   !.init = SubSeq(XfInit, 1, Len(XfInit) - 1) \o << Cchild(3, "k", 2), Csettop(1, 1) >>],
@@ -488,6 +513,15 @@ ScopeTable ==
                                                       [op |-> "add", rel |-> "DP", p |-> 2, x |-> 6, pos |-> 0] >>,
                                 !.max = [N |-> 1, L |-> 3, D |-> 3, P |-> 6, C |-> 2, I |-> 5, Q |-> 7, W |-> 4]],
     xf_port |-> XfPortScope,
+    \* fixed hierarchy, mid (two-bit port a) instanced TWICE in top: uniquify has to clone it
+    xf_port2 |-> [XfPortScope EXCEPT
+                    !.init = << Cnew("N", "n"), Ccreate("NL", 1, "work", 0),
+                                Ccreate("LD", 1, "leaf", 0), Ccreate("LD", 1, "mid", 0), Ccreate("LD", 1, "top", 0),
+                                Ccreate("DP", 1, "i", 1), Ccreate("DP", 1, "o", 1),
+                                Ccreate("DP", 2, "a", 2), Ccreate("DP", 2, "b", 1), Ccreate("DC", 2, "n", 1),
+                                Ccreate("DP", 3, "t", 1), Ccreate("DC", 3, "m", 2),
+                                Cchild(2, "l", 1), Cchild(3, "m", 2), Cchild(3, "m2", 2),
+                                Csettopdef(1, 3) >>],
     \* fixed hierarchy, mid instanced twice in top; mid got its port z in front after the first instance existed
     xf_late_port |-> [XfPortScope EXCEPT
                         !.init = << Cnew("N", "n"), Ccreate("NL", 1, "work", 0),
@@ -502,6 +536,18 @@ ScopeTable ==
                         !.max = [N |-> 1, L |-> 1, D |-> 3, P |-> 6, C |-> 2, I |-> 4, Q |-> 6, W |-> 4]],
     hier11 |-> HierScope({"C11"}, {}),
     hier12 |-> HierScope({"C12"}, {}),
+    \* mid has TWO ports (a feed-through cell is reachable: one inner wire tied to both)
+    hier12_ft |-> [HierScope({"C12"}, {}) EXCEPT
+                     !.init = << Cnew("N", "n"), Ccreate("NL", 1, "lib", 0), Ccreate("LD", 1, "leaf", 0), Ccreate("LD", 1, "mid", 0),
+                                 Ccreate("LD", 1, "top", 0),
+                                 Ccreate("DP", 1, "i", 1),
+                                 Ccreate("DP", 2, "p", 1), Ccreate("DP", 2, "r", 1), Ccreate("DC", 2, "n", 1),
+                                 Ccreate("DP", 3, "t", 1), Ccreate("DC", 3, "m", 2),
+                                 Csettopdef(1, 3), Cchild(2, "l", 1), Cchild(3, "m", 2), Cchild(3, "x", 1) >>,
+                     !.ops = {"b:connect"}, !.pos = {NoPos, 0}],
+    \* queries between edits on the same objects: connections are made and taken away while references are held
+    hier12_walk |-> [HierScope({"walkq"}, {}) EXCEPT !.walk = TRUE,
+                     !.init = HierInit \o << Cchild(2, "l", 1), Cchild(3, "m", 2), Cchild(3, "x", 1) >>, !.ops = {"l:connect", "disconnect"}],
     \* connections also inserted at the FRONT of a wire's pin list (an instance pin ahead of a port pin)
     hier12_pos |-> [HierScope({"C12"}, {}) EXCEPT !.pos = {NoPos, 0}],
     hier_walk |-> [HierScope({"walkq"}, {"set_name:I", "set_name:C", "set_name:P", "del_name:I", "set_attr:P",
@@ -532,10 +578,10 @@ ScopeTable ==
     naming_edif |-> NamingScope("EDIF", {}),
     \* a second library: its cells (a name that is free in the first library, and one that is taken there) are
     \* offered to the first library while they still belong to the second, and the other way round
-    naming_two |-> [NamingScope("DEFAULT", {"add:DP"}) EXCEPT
+    naming_two |-> [NamingScope("DEFAULT", {"add:DP", "new:C", "add:DC", "create:DC", "remove:DC", "set_name:C"}) EXCEPT
                       !.init = @ \o << Ccreate("NL", 1, "c", 0), Ccreate("LD", 2, "z", 0), Ccreate("LD", 2, "a", 0),
                                        Ccreate("DP", 3, "z", 0) >>,
-                      !.max = [N |-> 1, L |-> 2, D |-> 5, P |-> 3, C |-> 1, I |-> 2, Q |-> 0, W |-> 0],
+                      !.max = [N |-> 1, L |-> 2, D |-> 5, P |-> 3, C |-> 2, I |-> 2, Q |-> 0, W |-> 0],
                       !.lookupVals = {"a", "A", "b", "z"}],
     naming_mix |-> NamingScope("DEFAULT", {"set_default", "set_ns:P", "set_ns:D"}),
     conn |->
@@ -585,7 +631,7 @@ ActionProps(pre, c, out, post) ==
     /\ (c.op \in IROps => C19_Suffices(pre, c))      \* the announcement design suffices for an exact mirror
 
 Queries == IF "queries" \in DOMAIN Scope THEN Scope.queries ELSE {}
-StepCands(s) == Cands(s, Scope) \cup (IF "parents" \in DOMAIN Scope THEN BuildCands(s, Scope) ELSE {})
+StepCands(s) == Cands(s, Scope) \cup (IF "parents" \in DOMAIN Scope THEN BuildCands(s, Scope) \cup LocalConnectCands(s, Scope) ELSE {})
 QCands(s) ==
     (IF "C11" \in Queries THEN QueryCandsC11(s) ELSE {})
     \cup (IF "C12" \in Queries THEN QueryCandsC12(s) ELSE {})
@@ -597,11 +643,13 @@ QCands(s) ==
     \cup (IF "C17" \in Queries THEN NameCands(s) ELSE {})
     \cup (IF "C17re" \in Queries THEN ReexportCands(s) ELSE {})
     \cup (IF "C13e" \in Queries THEN EdifDirectProduct(s) ELSE {})
+    \cup (IF "C13d" \in Queries THEN DirectProduct(s) ELSE {})
     \cup VlogCands(s, Queries)
     \cup EblifCands(s, Queries)
     \cup ComposeCands(s, Queries)
     \cup ParseCands(s, Queries)
-    \cup (IF "C13" \in Queries THEN RandomSubset(Scope.sample * (MaxDepth + 1), QueryProduct(s)) \cup DirectProduct(s) ELSE {})
+    \cup (IF "C13" \in Queries THEN RandomSubset(Scope.sample * (MaxDepth + 1), QueryProduct(s)) \cup DirectProduct(s)
+                                    \cup IndirectCableProduct(s) ELSE {})
     \cup (IF "xf2" \in Queries
           THEN StepCands(s) \cup {[op |-> "uniquify", n |-> n] : n \in IdsN(s)}
                \cup {[op |-> "seq", calls |-> << [op |-> "uniquify", n |-> n], [op |-> "flatten", n |-> n] >>] : n \in IdsN(s)}
